@@ -346,9 +346,11 @@ class Rec:
         self.fail = {}
         self.fcount = Counter()
         self.truncated = False
+        self.calls = 0
 
     def over(self):
-        if self.cases % 64 == 0 and time.time() > self.deadline:
+        self.calls += 1
+        if self.calls % 8 == 0 and time.time() > self.deadline:
             self.truncated = True
         return self.truncated
 
@@ -822,9 +824,9 @@ def check_expand(rec, env, host, tag, plan, desc):
     required, optional, wiring = model
     rec.cases += 1
     inputs = {"transformation": "expand_graph", "names": tag, "graph": host.json(), "expansions": {host.names[i]: {"sub-graph": sub.json(), "input_map": imap, "output_map": omap} for i, (sub, imap, omap) in plan.items()}, "plan": desc}
-    if any(host.ins[i] or any(p == i for (p, _on, _c, _k) in host.edges()) for i in plan):
-        rec.nontrivial += 1
-    if len(rec.samples) < 2 and plan and rec.cases % 997 == 1:
+    nontrivial = any(host.ins[i] or any(p == i for (p, _on, _c, _k) in host.edges()) for i in plan)
+    rec.nontrivial += nontrivial
+    if len(rec.samples) < 2 and nontrivial and host.n() >= 2 and rec.cases % 997 == 1:
         rec.samples.append(inputs)
 
     def body():
@@ -886,7 +888,9 @@ def run(out, tier, seed):
     env = Env()
     quick = tier == "quick"
     rng = random.Random(seed)
-    budget = (9.0 if quick else 140.0)
+    # time guards per sub-space (seconds); nominal run times are about half of these, a hit is stated in the bound
+    guard = (dict(copy=3, rename=5, dedup=8, fuse=5, split=9, expand=22, random=3) if quick
+             else dict(copy=40, rename=80, dedup=100, fuse=100, split=230, expand=250, random=60))
 
     s3 = structs_upto(3)
     # 4 nodes, "reduced": connected, single-input nodes use the first input name only
@@ -902,16 +906,17 @@ def run(out, tier, seed):
     s4one = [st for st in s4core if sum(1 for k, _i in st if k == "S") == 1]
     s5 = []
     if not quick:
-        s5 = list(itertools.islice(enum_structs(5, lone_y=False, connected=True, terminal_kinds="S", max_terminals=1), 0, None, 10))
+        s5 = list(itertools.islice(enum_structs(5, lone_y=False, connected=True, terminal_kinds="S", max_terminals=1), 0, None, 5))
     side_schemes = [PREFIXY, PREFIXY2, ATTR, PARAM]
     space = "ALL DAGs with 1-3 nodes (%d) + %s (%d)" % (len(s3), main4_desc, len(main4))
-    side = "; name sets 'prefix', 'prefix2' (names that are prefixes of / share characters with each other and contain '.'), 'attr' (names of Node attributes), 'param' (names of callback parameters) on the 1-3 node DAGs%s" % side4_desc
+    side3 = "; name sets 'prefix', 'prefix2' (names that are prefixes of / share characters with each other and contain '.'), 'attr' (names of Node attributes), 'param' (names of callback parameters) on the 1-3 node DAGs"
+    side = side3 + side4_desc
     if s5:
-        space += " + every 10th (in enumeration order) of the connected 5-node DAGs with ONE output-less sink (%d)" % len(s5)
+        space += " + every 5th (in enumeration order) of the connected 5-node DAGs with ONE output-less sink (%d)" % len(s5)
 
     # ---- copy
-    rec = Rec(budget)
-    for sch, structs in [(PLAIN, s3 + main4 + s5)] + [(s_, s3 + side4) for s_ in side_schemes]:
+    rec = Rec(guard["copy"])
+    for sch, structs in [(s_, s3 + side4) for s_ in side_schemes] + [(PLAIN, s3 + main4 + s5)]:
         for st in structs:
             if rec.over():
                 break
@@ -922,27 +927,27 @@ def run(out, tier, seed):
              space + "; " + describe_structs() + "; plain names" + side + ". Non-trivial = the graph has at least one edge.")
 
     # ---- rename / join
-    rec = Rec(budget * 1.5)
-    for sch, structs in [(PLAIN, s3 + main4), (PREFIXY, s3 + side4), (PREFIXY2, s3), (ATTR, s3), (PARAM, s3)]:
+    rec = Rec(guard["rename"])
+    for sch, structs in [(s_, s3 + side4) for s_ in side_schemes] + [(PLAIN, s3 + main4 + s5)]:
         rens = RENAMERS if sch in (PLAIN, PREFIXY) else RENAMERS[1:3]
         for st in structs:
             if rec.over():
                 break
             spec = scheme_spec(st, sch)
-            for rname, rf in rens if (len(st) <= 3 or not quick) else RENAMERS[1:3]:
+            for rname, rf in rens if (len(st) <= 3 or (not quick and len(st) == 4 and sch is PLAIN)) else RENAMERS[1:3]:
                 check_rename(rec, env, spec, sch.tag, rname, rf)
             if len(st) <= 3:
                 spec2 = scheme_spec(st, sch, ["r%d" % i for i in range(len(st))])
                 check_join(rec, env, spec, spec2, sch.tag, ("a", "a.a") if sch is not PLAIN else ("g1", "g2"))
     rec.samples.append({"transformation": "rename_nodes", "renamer": "constant 'a'", "graph": scheme_spec(s3[-1], PLAIN).json()})
     rec.emit(out, "rename_nodes / join_namespaced on all small DAGs", "exhaustive enumeration",
-             space + " x renamers {identity, prefix, constant (all nodes get one name), reverse, first character}" + (" (quick: prefix and constant only on 4 nodes)" if quick else "") + "; join_namespaced of every 1-3 node DAG with a twin under namespaces that are prefixes of each other; "
+             space + " x renamers {identity, prefix, constant (all nodes get one name), reverse, first character}" + (" (prefix and constant only on 4 nodes)" if quick else " (prefix and constant only on 5 nodes and on the 4-node DAGs of the other name sets)") + "; the name sets 'prefix2', 'attr', 'param' with prefix and constant only; join_namespaced of every 1-3 node DAG with a twin under namespaces that are prefixes of each other; "
              + describe_structs() + side + ". Non-trivial = the graph has at least one edge.")
 
     # ---- dedup
-    rec = Rec(budget * 1.5)
+    rec = Rec(guard["dedup"])
     core4 = set(s4core)
-    for sch, structs in [(PLAIN, s3 + main4 + s5)] + [(s_, s3) for s_ in side_schemes]:
+    for sch, structs in [(s_, s3) for s_ in side_schemes] + [(PLAIN, s3 + main4 + s5)]:
         for st in structs:
             if rec.over():
                 break
@@ -964,12 +969,12 @@ def run(out, tier, seed):
     rec.samples.append({"transformation": "deduplicate_nodes", "graph": scheme_spec(s3[-1], PLAIN, ["p0"] * 3).json()})
     rec.emit(out, "deduplicate_nodes on all small DAGs x payload assignments", "exhaustive enumeration",
              space + " x payloads from {p0,p1}: every assignment on 1-3 nodes" + (" and on the connected 4-node DAGs with at most 2 output-less sinks" if not quick else "")
-             + ", 4 patterns (all equal, aabb, abab, abba) on the other 4-node DAGs, 2 patterns on 5 nodes and on the other name sets (on 4 and 5 nodes a pattern other than all-equal is run only if it makes two nodes equal); "
-             + describe_structs() + side + ". Non-trivial = at least two nodes of the input are equal in payload, outputs and inputs (something must be merged).")
+             + ", 4 patterns (all equal, aabb, abab, abba) on the " + ("" if quick else "other ") + "4-node DAGs, 2 patterns (all equal, alternating) on " + ("" if quick else "5 nodes and on ") + "the other name sets (on 4 and 5 nodes a pattern other than all-equal is run only if it makes two nodes equal); "
+             + describe_structs() + side3 + ". Non-trivial = at least two nodes of the input are equal in payload, outputs and inputs (something must be merged).")
 
     # ---- fuse
-    rec = Rec(budget * 1.5)
-    for sch, structs in [(PLAIN, s3 + main4 + s5)] + [(s_, s3) for s_ in side_schemes]:
+    rec = Rec(guard["fuse"])
+    for sch, structs in [(s_, s3) for s_ in side_schemes] + [(PLAIN, s3 + main4 + s5)]:
         for st in structs:
             if rec.over():
                 break
@@ -988,12 +993,12 @@ def run(out, tier, seed):
     rec.samples.append({"transformation": "fuse_nodes", "callback": "fuse on ALL offers", "graph": scheme_spec(s3[-1], PLAIN).json()})
     rec.emit(out, "fuse_nodes on all small DAGs x fusion callbacks", "exhaustive enumeration",
              space + " x callbacks that fuse (child, parent) into one node on a chosen set of offers: EVERY subset of the fusable edges when there are at most 3 (thorough: 4) of them, "
-             "otherwise {all, each single edge, all but one}; the other name sets with the fuse-everything callback; " + describe_structs() + side
+             "otherwise {all, each single edge, all but one}; the other name sets with the fuse-everything callback; " + describe_structs() + side3
              + ". Non-trivial = the callback fused at least once.")
 
     # ---- split
-    rec = Rec(budget * 2)
-    for sch, structs in [(PLAIN, s3 + (s4one if quick else main4) + s5)] + [(s_, s3) for s_ in side_schemes]:
+    rec = Rec(guard["split"])
+    for sch, structs in [(s_, s3) for s_ in side_schemes] + [(PLAIN, s3 + (s4one if quick else main4) + s5[::4])]:
         for st in structs:
             if rec.over():
                 break
@@ -1010,14 +1015,14 @@ def run(out, tier, seed):
     rec.samples.append({"transformation": "split_graph", "keys": [0, 1, 0], "graph": scheme_spec(s3[-1], PLAIN).json()})
     rec.emit(out, "split_graph on all small DAGs x key functions", "exhaustive enumeration",
              (space if not quick else space.replace("at most 2 sinks", "ONE sink").replace("(%d)" % len(main4), "(%d)" % len(s4one)))
-             + " x EVERY partition of the nodes into at most 3 parts (quick tier: at most 2 parts on 4 nodes; 2 parts on 5 nodes and on the other name sets) as key function; keys are fresh equal-but-not-identical tuples; "
-             + describe_structs() + side + ". Non-trivial = at least one edge crosses parts.")
+             + " x EVERY partition of the nodes into at most 3 parts (quick tier: at most 2 parts on 4 nodes; 2 parts on the other name sets" + ("" if quick else " and on every 4th of the 5-node DAGs") + ") as key function; keys are fresh equal-but-not-identical tuples; "
+             + describe_structs() + side3 + ". Non-trivial = at least one edge crosses parts.")
 
     # ---- expand
-    run_expand(out, env, quick, budget * 3.5, s3, s4core)
+    run_expand(out, env, quick, guard["expand"], s3, s4core)
 
     # ---- seeded random
-    run_random(out, env, quick, rng, budget)
+    run_random(out, env, quick, rng, guard["random"])
 
 
 MODES = ("explicit", "implicit", "imap-only", "omap-only")
@@ -1076,6 +1081,8 @@ def run_expand(out, env, quick, budget, s3, s4core):
     # (A) every 1-2 node host x every subset of nodes expanded x EVERY 1-2 node sub-graph x all 16 map combinations
     for sch in (PLAIN, PREFIXY, PREFIXY2, ATTR, PARAM):
         for hs in s2:
+            if rec.over():
+                break
             host = scheme_spec(hs, sch)
             n = host.n()
             for t in [t for r_ in range(1, n + 1) for t in itertools.combinations(range(n), r_)]:
@@ -1130,8 +1137,8 @@ def run_expand(out, env, quick, budget, s3, s4core):
 
 
 def run_random(out, env, quick, rng, budget):
-    rec = Rec(budget * 1.5)
-    N = 400 if quick else 6000
+    rec = Rec(budget)
+    N = 400 if quick else 8000
     schemes = [PLAIN, PREFIXY, PREFIXY2]
     subs3 = structs_upto(3)
     for t in range(N):
